@@ -262,6 +262,11 @@ def compare(node: ast.Compare, env: Env) -> Term:
         a_node, b_node = operands[i], operands[i + 1]
         sym = CMP_OPS[type(op)]
         # ``next(X, False) is not False``  ==  X yields something
+        if sym in ("is not", "is") and is_const(b_node, None) and isinstance(a_node, ast.Call) and _is_name(a_node.func, "next") and len(a_node.args) == 2 and is_const(a_node.args[1], None):
+            # next(X, None) is not None: X yields something (the listings of this package never yield None)
+            ne = nonempty(a_node.args[0], env)
+            parts.append(ne if sym == "is not" else neg(ne))
+            continue
         if sym in ("is not", "is", "!=", "==") and is_const(b_node, False) and isinstance(a_node, ast.Call) and _is_name(a_node.func, "next") and len(a_node.args) == 2 and is_const(a_node.args[1], False):
             ne = nonempty(a_node.args[0], env)
             parts.append(ne if sym in ("is not", "!=") else neg(ne))
